@@ -63,6 +63,23 @@ class Module:
                     self.aliases[st.targets[0].id] = d
 
 
+def clone(node):
+    """structural copy of an AST (fields and positions only: the analyser's parent / module back-pointers are NOT followed, a
+    copy.deepcopy would drag the whole module along through them)"""
+    if isinstance(node, list):
+        return [clone(x) for x in node]
+    if not isinstance(node, ast.AST):
+        return node
+    new = type(node)()
+    for f in node._fields:
+        if hasattr(node, f):
+            setattr(new, f, clone(getattr(node, f)))
+    for a in ("lineno", "col_offset", "end_lineno", "end_col_offset"):
+        if hasattr(node, a):
+            setattr(new, a, getattr(node, a))
+    return new
+
+
 def _annotate(node, parent):
     node._parent = parent
     for ch in ast.iter_child_nodes(node):
@@ -88,6 +105,8 @@ class Repo:
                         self.modules[rel] = Module(rel, path, src)
                     except SyntaxError as e:
                         raise AnalysisError("cannot parse %s: %s" % (rel, e))
+        from . import inline
+        self.inlined = inline.apply(self)
 
     def module(self, rel):
         if rel not in self.modules:
@@ -271,3 +290,33 @@ def resolve_method(repo, rel, cname, meth):
         if n is not None:
             return r, n
     return None, None
+
+
+def append_loop_as_listcomp(fn, name):
+    """``name = []`` followed by ``for T in IT: ...; name.append(E)`` (append unconditional, last statement of the loop body, no
+    break/continue/else) is the list comprehension ``[E for T in IT]``: returns that synthetic ListComp (E is the original node),
+    else None."""
+    defs = [st for st in walk_no_nested(fn) if isinstance(st, ast.Assign) and len(st.targets) == 1 and isinstance(st.targets[0], ast.Name) and st.targets[0].id == name]
+    if len(defs) != 1:
+        return None
+    v = defs[0].value
+    if not ((isinstance(v, ast.List) and not v.elts) or (isinstance(v, ast.Call) and dotted(v.func) == "list" and not v.args)):
+        return None
+    apps = [st for st in walk_no_nested(fn) if isinstance(st, ast.Expr) and isinstance(st.value, ast.Call) and dotted(st.value.func) == name + ".append"]
+    other = [x for x in walk_no_nested(fn) if isinstance(x, ast.Attribute) and isinstance(x.value, ast.Name) and x.value.id == name and x.attr != "append"]
+    if len(apps) != 1 or other or len(apps[0].value.args) != 1:
+        return None
+    loop = apps[0]._parent
+    if not isinstance(loop, ast.For) or loop.orelse or loop.body[-1] is not apps[0]:
+        return None
+    if any(isinstance(x, (ast.Break, ast.Continue, ast.Return)) for st in loop.body for x in ast.walk(st)):
+        return None
+    blk = defs[0]._parent
+    body = getattr(blk, "body", [])
+    if loop._parent is not blk or defs[0] not in body or loop not in body or body.index(defs[0]) > body.index(loop):
+        return None
+    lc = ast.ListComp(elt=apps[0].value.args[0], generators=[ast.comprehension(target=loop.target, iter=loop.iter, ifs=[], is_async=0)])
+    ast.copy_location(lc, loop)
+    lc._parent = loop
+    lc._from_loop = loop
+    return lc
